@@ -13,7 +13,7 @@ pub fn def() -> PropDef {
         level: "exploration",
         rule: "proptest tape -> 1..6 concurrent tasks with cloned handles of one real Store, each with a list of 1..25 operations write / read / notify_read over 1..4 keys (values unique per write), tape-chosen yields between operations, seeded scheduler; notify_reads are issued (enqueued) in place and awaited by helper tasks so that several waiters can be pending per key; optionally all handles are dropped and the store is reopened on the same path, then every key is read. Oracle: operations are numbered at issue; the store serialises commands in channel order, which equals issue order (fewer than 100 outstanding, cooperative budgeting disabled for the workers); replaying the log on a map: read = latest earlier write or none; notify_read = latest earlier write if any, else the first later write to the key, else still pending at quiescence; after reopen every written key reads its last value. Non-trivial: >= 2 waiters were pending on a key that was then written from another handle; distinct by op-list hash.",
         assumptions: &["fewer than 100 commands outstanding, so that issue order equals the order in the store's channel"],
-        parts: vec![Part { name: "concurrent-ops", cfg_len: 1, tape_max: 260, quick: 12_000, thorough: 400_000, max_shrink_iters: 500, run }],
+        parts: vec![Part { name: "concurrent-ops", cfg_len: 1, tape_max: 260, quick: 50_000, thorough: 1_500_000, max_shrink_iters: 500, run }],
     }
 }
 
